@@ -42,7 +42,7 @@ def _replay_chunk(args):
         fin = _G['nodes'][p[-1][1]]['S'] if p else _G['nodes'][init]['S']
         if any(not a.endswith('RunHandle') for a, _ in p) or any(e[0] in ('fault', 'call') for e in fin['log']):
             nontrivial += 1
-        r = core_replay.replay_path(_G['progs'], _G['plans'], _G['nodes'], init, p)
+        r = core_replay.replay_path(_G['progs'], _G['plans'], _G['nodes'], init, p, _G.get('run_kw'))
         for _, nid in p[-1:]:
             devs |= set(_G['nodes'][nid]['S']['dev'])
         if r:
@@ -55,7 +55,7 @@ def _replay_chunk(args):
 
 
 def graph_replay(name, progs, plans, alphabet, k, extra_defs='', procs=None, fixes=FIXES, overrides=(), base='ProcessProps',
-                 spec='Spec'):
+                 spec='Spec', run_kw=None):
     """Dump the full state graph of the instance and replay every maximal path. -> dict"""
     plans = [list(p) for p in plans]
     tla, cfg = core_model.mc_module('MC_' + name, progs, plans, fixes, alphabet, k, base=base, extra_defs=extra_defs,
@@ -77,7 +77,7 @@ def graph_replay(name, progs, plans, alphabet, k, extra_defs='', procs=None, fix
         n = max(1, len(paths) // 8)
         for i in range(0, len(paths), n):
             jobs.append((init, paths[i:i + n]))
-    _G.update(progs=progs, plans=plans, nodes=nodes)
+    _G.update(progs=progs, plans=plans, nodes=nodes, run_kw=run_kw)
     procs = procs or min(16, os.cpu_count() or 1)
     divergent, devs, sample, nontrivial = [], set(), None, 0
     if total:
@@ -166,6 +166,7 @@ def run_check(pid, tier, seed, mc_runs, replay_runs, level_text, assumptions, ru
                         'replay_s': round(g['replay_s'], 1)})
         for d in g['divergent'][:5]:
             path = write_replay(pid, 'divergence', {'kind': 'replay-divergence', 'program': d['prog'], 'plan': d['plan'],
+                                                    'run_kw': r.get('run_kw') or {},
                                                     'fixes': FIXES, 'actions': d['path'], 'at': d['at'], 'diffs': d['diffs']})
             print('DIVERGENCE program=%s plan=%s after %s: %s' % (d['prog']['name'], d['plan'], d['path'][:d['at']], d['diffs'][:3]))
             print('VIOLATION property=%s replay=%s' % (pid, path))
@@ -183,6 +184,10 @@ def run_check(pid, tier, seed, mc_runs, replay_runs, level_text, assumptions, ru
     }
     if extra_cov:
         cov.update(extra_cov)
+        cov['traces_validated_against_impl'] += extra_cov.get('outline_behaviours_on_impl', 0)
+        cov['evaluations'] += extra_cov.get('outline_behaviours_on_impl', 0)
+        cov['distinct_nontrivial'] += extra_cov.get('outline_behaviours_on_impl', 0)
+        cov['states'] += extra_cov.get('outline_states', 0)
     violations += extra_violations
     evidence.write(pid, tier, seed, level, cov, time.time() - t0, violations, assumptions)
     return 1 if violations else 0
@@ -194,7 +199,7 @@ def replay_file(path):
     logging.disable(logging.CRITICAL)
     rec = json.load(open(path))
     if rec.get('kind') == 'replay-divergence':
-        run = core_real.Run(rec['program']['steps'], rec['plan'], rec['program']['outMissing'])
+        run = core_real.Run(rec['program']['steps'], rec['plan'], rec['program']['outMissing'], **rec.get('run_kw', {}))
         for a in rec['actions'][:rec['at']]:
             name, params = core_replay.split_action(a)
             name = core_replay.ALIASES.get(name, name)
@@ -202,6 +207,10 @@ def replay_file(path):
                 run.run_handle()
             elif name == 'EnvCallSoon':
                 run.env('cb' + params[0])
+            elif name == 'EnvSave':
+                run.snapshot()
+            elif name == 'EnvRestore':
+                run.restore()
             else:
                 n, arg = core_replay.ENV_ACTIONS[name]
                 run.env(n, params[0] if params else arg)
